@@ -354,6 +354,8 @@ def install(lib):
         return x
 
     def b_str(ex, x=""):
+        if isinstance(x, RaiseEx):
+            return x.msg if isinstance(x.msg, str) else ""
         return str(x) if isinstance(x, (str, int, float)) else "<str>"
 
     def b_type(ex, x):
